@@ -20,7 +20,8 @@ META = {
         'padding-insensitive form; (D4) nearest() returns only members of OFFICIAL_VERSIONS, equal first, '
         'scanning in descending order.  Also (D2): identity tests (`is`) between non-singleton inputs are refused by the decision table (the outcome depends on interning); the skeleton may bind locals to case/strip transforms and the suffix representatives include mixed case; (D3) an unrecognised __hash__ body is evaluated by a small interpreter on representatives of the zero-padding classes.  Not decided: transitivity/monotonicity as quantified statements '
         'over triples (they follow from D1+D2 for a lexicographic comparison; that step is not mechanised).'
-        ' Also (D2): each operand of _cmp is padded by its OWN length.'),
+        ' Also (D2): each operand of _cmp is padded by its OWN length.'
+        ' Also (D2): no strip/rstrip/lstrip with a multi-character set containing a digit on version text; suffixes are ordered by ONE criterion (a derived-value comparison next to the text comparison is a violation).'),
     'rule_text': 'obligations = operator thresholds (6), _cmp decision-table cells (3 numeric orderings x 9 suffix '
                  'pairs), padding/int/coercion facts, hash form, nearest() returns and scan order',
     'trusted_base': ['lexicographic lift: a for-loop over zip() of equal-length tuples whose body returns on the '
@@ -38,12 +39,33 @@ def run(ctx):
     m = ctx.model
     methods = m.methods(MOD, 'Version', 'flat')
     ctx.count('methods of Version', len(methods))
+    _strip_sets(ctx, methods)
     _operators(ctx, methods)
     _cmp(ctx, methods)
     _init(ctx, methods)
     version_immutable(ctx, 'C18.D2')
     _hash(ctx, methods)
     _nearest(ctx, m, methods)
+
+
+def _strip_sets(ctx, methods):
+    """str.strip / rstrip / lstrip take a SET of characters, not a suffix: on the text of a version, rstrip('.0') turns
+    '10.0' into '1' and '2.10' into '2.1'.  Any such call with a constant of two or more characters inside Version is
+    that trap (a one-character argument, or none, is fine)."""
+    n = 0
+    for name, fn in sorted(methods.items()):
+        for c in walk_no_nested(fn):
+            if isinstance(c, ast.Call) and isinstance(c.func, ast.Attribute) and c.func.attr in ('strip', 'rstrip', 'lstrip'):
+                n += 1
+                if c.args and isinstance(c.args[0], ast.Constant) and isinstance(c.args[0].value, str) and len(set(c.args[0].value)) >= 2 \
+                        and any(ch.isdigit() for ch in c.args[0].value):
+                    ctx.violation('C18.D2', '%s::Version.%s' % (F, name), norm(c),
+                                  "Version('1') == Version('10') is True (and they hash alike) while Version('1') < Version('10') is "
+                                  "True too: %s(%r) removes every trailing/leading character of that SET, so '10' loses its zero "
+                                  "and '2.10' becomes '2.1'" % (c.func.attr, c.args[0].value),
+                                  'a version text is trimmed with %s(%r): a character set that contains a digit, not a suffix'
+                                  % (c.func.attr, c.args[0].value), file=F, line=c.lineno, engine='E7')
+    ctx.count('strip-family calls inside Version', n)
 
 
 def _operators(ctx, methods):
@@ -248,6 +270,43 @@ def _cmp(ctx, methods):
                       '_cmp compares numeric groups without zero-padding %s to the common length' % missing,
                       file=F, line=fn.lineno, engine='E6')
 
+    # one criterion for the suffixes: a branch that decides by a value DERIVED from both suffixes (a number cut out of
+    # them, their lengths, ...) only when a condition on both holds, next to the plain text comparison for the other
+    # pairs, mixes two orders -- rc2 < rc10 by number, rc10 < rc1x and rc1x < rc2 by text: a cycle
+    extra_texts = {k for k, v in alias.items() if v.endswith('.extra')} | {'%s.version_extra' % s, '%s.version_extra' % o}
+    derived = {}
+    pairs_ = []
+    for st in [x for r_ in rest for x in ast.walk(r_)]:
+        if isinstance(st, ast.Assign) and len(st.targets) == 1:
+            tg0 = st.targets[0]
+            if isinstance(tg0, ast.Tuple) and isinstance(st.value, ast.Tuple) and len(tg0.elts) == len(st.value.elts):
+                pairs_.extend((ast.Assign(targets=[t_], value=v_)) for t_, v_ in zip(tg0.elts, st.value.elts))
+            else:
+                pairs_.append(st)
+    for st in pairs_:
+        if isinstance(st, ast.Assign) and isinstance(st.value, (ast.Call, ast.Tuple)):
+            src = {norm(x) for x in ast.walk(st.value) if isinstance(x, (ast.Attribute, ast.Name))}
+            roots = {('S' if (t == '%s.version_extra' % s or alias.get(t, '').startswith('S.')) else 'O')
+                     for t in src if t in extra_texts} | {d for t in src if t in derived for d in derived[t]}
+            if roots:
+                for tg in ast.walk(st.targets[0]):
+                    if isinstance(tg, ast.Name):
+                        derived[tg.id] = set(roots)
+    plain_cmp = any(isinstance(c, ast.Compare) and norm(c.left) in extra_texts and any(norm(x) in extra_texts for x in c.comparators)
+                    and isinstance(c.ops[0], (ast.Lt, ast.Gt, ast.LtE, ast.GtE)) for r_ in rest for c in ast.walk(r_))
+    mixed = [c for r_ in rest for c in ast.walk(r_) if isinstance(c, ast.Compare) and isinstance(c.ops[0], (ast.Lt, ast.Gt, ast.LtE, ast.GtE))
+             and isinstance(c.left, ast.Name) and c.left.id in derived and any(isinstance(x, ast.Name) and x.id in derived
+                                                                              and derived[x.id] != derived[c.left.id]
+                                                                              for x in c.comparators)]
+    if mixed and plain_cmp:
+        c = mixed[0]
+        ctx.violation('C18.D2', '%s::Version._cmp' % F, norm(c),
+                      "Version('2.0rc2') < Version('2.0rc10') (decided by `%s`), Version('2.0rc10') < Version('2.0rc1x') and "
+                      "Version('2.0rc1x') < Version('2.0rc2') (both decided by the text of the suffixes): a cycle -- the order is "
+                      'not transitive, sorted() depends on the input arrangement' % norm(c),
+                      'suffixes are ordered by two criteria (`%s` for some pairs, their text for the others) that disagree'
+                      % norm(c), file=F, line=c.lineno, engine='E6')
+        return
     # decision table over orderings
     nums = {'lt': ((2, 0), (3, 0)), 'eq': ((2, 0), (2, 0)), 'gt': ((3, 0), (2, 0)),
             'lt2': ((2, 0), (2, 1)), 'gt2': ((2, 1), (2, 0))}
